@@ -150,6 +150,16 @@ pub fn run(cases: &[String]) -> RunOut {
                     }
                     Some(Err(_)) => if k != PubkeyData::Uninitialized { err = Some("initialised key-data fails to pack".into()); },
                 }
+                // PubkeyData::pack into a caller-supplied slice: exact size only, never a panic
+                let want = match &k { PubkeyData::InstructionData { .. } => 2usize, PubkeyData::AccountData { .. } => 3, _ => usize::MAX };
+                for n in 0..=5usize {
+                    let mut dst = vec![0xeeu8; n];
+                    match guarded(|| k.pack(&mut dst)) {
+                        None => err = Some("PubkeyData::pack panicked".into()),
+                        Some(Ok(())) => if n != want { err = Some("PubkeyData::pack accepted a destination of the wrong size".into()) },
+                        Some(Err(_)) => if n == want { err = Some("PubkeyData::pack rejected an exact-size destination".into()) },
+                    }
+                }
                 if k != PubkeyData::Uninitialized { out.stats.nontrivial_case(line); }
                 out.stats.bump("kdpack");
                 res_line(&r, |c| hex(c))
